@@ -32,10 +32,32 @@ def sum_hist(reports, pred):
     return sum(v for r in reports for k, v in r["hist"].items() if pred(k))
 
 
+def stall_handler(res, failure, ws, prop, by_id):
+    """C09 termination: a monitor process that made no progress for 10 s recorded (declaration, input) and exited 3.
+    Re-run exactly that call alone; only a reproduced stall is a violation, anything else is inconclusive."""
+    if prop != "C09" or failure.get("why") != "exit 3":
+        return False
+    out = failure["cmd"].split("--out ")[1].split(" ")[0]
+    try:
+        decl, inp = open(out + ".stall").read().split()
+    except Exception:
+        return False
+    reports, failures2, dt = cratebuild.run_monitor(ws, "C09", res.tier, res.seed, os.path.join(ws.dir, "out-stall"), only=decl, only_input=inp, timeout=60)
+    d, mt = by_id.get(decl, (None, None))
+    if failures2:
+        v = {"decl": decl, "signature": "arb-does-not-terminate", "input": inp, "observed": "no progress for 10 s in the sweep and again when re-run alone (%s)" % failures2[0].get("why"),
+             "expected": "terminates", "detail": "", "count": 1}
+        v["replay"] = write_witness(res, v, mt, d.decl_text() if d else None)
+        res.violations.append(v)
+    else:
+        res.inconclusive.append("a monitor process stalled on %s input %s but the stall was not reproduced in isolation; the rest of its partition was not run" % (decl, inp))
+    return True
+
+
 def ctor_flow(prop, tier, seed, rule, guards_fn, assumptions=None):
     res = Result(prop, tier, seed)
     res.rule = rule
-    out, by_id = runtime_check(res, "rt-%s" % tier, ctor_decls(tier, seed), [prop])
+    out, by_id = runtime_check(res, "rt-%s" % tier, ctor_decls(tier, seed), [prop], failure_handler=stall_handler)
     if out is None:
         return finish(res)
     reports = out[prop]
